@@ -211,7 +211,7 @@ def _call_args(case):
     return a, b, paths
 
 
-def _observe(case, cwd_abs, mode):
+def _observe(case, cwd_abs, mode, explicit_repo_dir=None):
     """Run changed_notebooks for `case` from cwd_abs as a consumer would, in the given consumption mode.
     Returns dict(pairs=[((a_text,a_name),(b_text,b_name))...], during=[cwd seen in the loop body...], after=cwd, exc=exception|None).
     The harness' own cwd is restored in every case."""
@@ -223,6 +223,8 @@ def _observe(case, cwd_abs, mode):
     before = os.getcwd()
     if before != cwd_abs:
         raise common.CheckerDefect('scratch path %r is not canonical (%r)' % (cwd_abs, before))
+    # explicit_repo_dir: the caller (e.g. the server extension) names the directory the filters are relative to and runs from elsewhere
+    extra = {} if explicit_repo_dir is None else {'repo_dir': explicit_repo_dir}
 
     def body(pair):
         obs['yielded'] += 1
@@ -237,7 +239,7 @@ def _observe(case, cwd_abs, mode):
 
     def drive():
         if mode == 'exhaust':
-            for pair in gf.changed_notebooks(a, b, paths):
+            for pair in gf.changed_notebooks(a, b, paths, **extra):
                 body(pair)
         elif mode == 'break-close':
             gen = gf.changed_notebooks(a, b, paths)
@@ -421,6 +423,25 @@ def check_case(root, info, contents, case, modes):
                             txt += (' (the same filter spelled relative to the repository root, %r from <repo>/, is handled: the filter is not '
                                     'resolved against the directory nbdime is run from)' % (rooted,))
                 fail(kind, txt)
+    # ---- the same request with an explicit repo_dir, run from another directory (inside and outside the repository)
+    # (only repo_dir = the repository root, which is how nbdime's own server extension calls it; nothing is stated for a sub-directory)
+    if 'exhaust' in modes and obs['exc'] is None and not fails and not case['cwd']:
+        want = sorted((da[0], db[0]) for da, db in obs['pairs'])
+        elsewhere = [os.path.dirname(root)]
+        inside = next((os.path.join(root, d) for d in ('pkg', 'other') if os.path.isdir(os.path.join(root, d))), None)
+        if inside:
+            elsewhere.append(inside)
+        for other in elsewhere:
+            o3 = _observe(case, other, 'exhaust', explicit_repo_dir=cwd_abs)
+            where = 'outside the repository' if other == os.path.dirname(root) else '<repo>/%s' % os.path.relpath(other, root).replace('.', '')
+            if o3['exc'] is not None:
+                fail('repo-dir-ignored', 'with repo_dir=<repo>/%s given explicitly and the process running from %s, changed_notebooks raised %s'
+                     % (case['cwd'], where, _exc_text(o3['exc'])))
+            elif sorted((da[0], db[0]) for da, db in o3['pairs']) != want:
+                fail('repo-dir-ignored', 'with repo_dir=<repo>/%s given explicitly and the process running from %s, %d pair(s) are examined instead of the %d '
+                     'examined when run from that directory (filters are relative to repo_dir)' % (case['cwd'], where, len(o3['pairs']), len(want)))
+            elif o3['after'] != o3['before']:
+                fail('cwd-changed-after', 'explicit repo_dir: the working directory is %r afterwards, was %r' % (o3['after'], o3['before']))
     # ---- abandoning the generator early
     for mode in modes:
         if mode == 'exhaust' or not req:
